@@ -93,9 +93,51 @@ static void check_fp_type(const char* tn)
     verdict(std::is_same<xs::simd_return_type<bool, T, A>, xs::batch_bool<T, A>>::value, p + "simd_return_type<bool,T>");
 }
 
+// simd_return_type<T1, T2, A> names the batch of the destination type T2 (for every source type T1)
+template <class T1, class T2, class A>
+static void check_srt(const char* n1, const char* n2)
+{
+    using R = xs::simd_return_type<T1, T2, A>;
+    verdict(std::is_same<R, xs::batch<T2, A>>::value && R::size * sizeof(T2) * 8 == reg_bits<A>(), std::string(A::name()) + ": simd_return_type<" + n1 + "," + n2 + "> is batch<" + n2 + "> of the register width");
+}
+template <class T1, class T2, class A>
+static void check_srt_complex(const char* n1, const char* n2)
+{
+    using R = xs::simd_return_type<std::complex<T1>, std::complex<T2>, A>;
+    verdict(std::is_same<R, xs::batch<std::complex<T2>, A>>::value && R::size == xs::batch<T2, A>::size, std::string(A::name()) + ": simd_return_type<complex<" + n1 + ">,complex<" + n2 + ">> is batch<complex<" + n2 + ">>");
+}
+template <class T1, class A>
+static void check_srt_from(const char* n1)
+{
+    check_srt<T1, int8_t, A>(n1, "i8");
+    check_srt<T1, uint8_t, A>(n1, "u8");
+    check_srt<T1, int16_t, A>(n1, "i16");
+    check_srt<T1, uint16_t, A>(n1, "u16");
+    check_srt<T1, int32_t, A>(n1, "i32");
+    check_srt<T1, uint32_t, A>(n1, "u32");
+    check_srt<T1, int64_t, A>(n1, "i64");
+    check_srt<T1, uint64_t, A>(n1, "u64");
+    check_srt<T1, float, A>(n1, "f32");
+    check_srt<T1, double, A>(n1, "f64");
+}
+
 template <class A>
 static void check_arch()
 {
+    check_srt_from<int8_t, A>("i8");
+    check_srt_from<uint8_t, A>("u8");
+    check_srt_from<int16_t, A>("i16");
+    check_srt_from<uint16_t, A>("u16");
+    check_srt_from<int32_t, A>("i32");
+    check_srt_from<uint32_t, A>("u32");
+    check_srt_from<int64_t, A>("i64");
+    check_srt_from<uint64_t, A>("u64");
+    check_srt_from<float, A>("f32");
+    check_srt_from<double, A>("f64");
+    check_srt_complex<float, float, A>("f32", "f32");
+    check_srt_complex<float, double, A>("f32", "f64");
+    check_srt_complex<double, float, A>("f64", "f32");
+    check_srt_complex<double, double, A>("f64", "f64");
     verdict(A::supported() && std::string(A::name()).size() > 0, std::string(A::name()) + ": supported() and has a name");
     check_type<int8_t, A>("i8");
     check_type<uint8_t, A>("u8");
@@ -181,6 +223,18 @@ int main()
     for_each_arch(xs::supported_architectures {});
     verdict(xs::supported_architectures::alignment() == max_alignment(xs::supported_architectures {}), "arch_list::alignment() is the maximum member alignment");
     verdict(xs::all_x86_architectures::alignment() == max_alignment(xs::all_x86_architectures {}), "all_x86_architectures::alignment() is the maximum member alignment");
+    // arch_list::alignment() is the maximum whatever the order of the members
+    verdict(xs::arch_list<xs::sse2>::alignment() == max_alignment(xs::arch_list<xs::sse2> {}), "alignment of a one-member list");
+#if XSIMD_WITH_AVX
+    verdict(xs::arch_list<xs::avx, xs::sse2>::alignment() == 32 && xs::arch_list<xs::sse2, xs::avx>::alignment() == 32 && xs::arch_list<xs::sse2, xs::avx, xs::sse3>::alignment() == 32
+                && xs::arch_list<xs::sse2, xs::sse3, xs::avx>::alignment() == 32 && xs::arch_list<xs::avx, xs::sse3, xs::sse2>::alignment() == 32,
+            "arch_list::alignment() of unsorted sse/avx lists is the maximum member alignment");
+#endif
+#if XSIMD_WITH_AVX512F
+    verdict(xs::arch_list<xs::avx, xs::sse2, xs::avx512f>::alignment() == 64 && xs::arch_list<xs::sse2, xs::avx512f, xs::avx>::alignment() == 64 && xs::arch_list<xs::avx512f, xs::sse2, xs::avx>::alignment() == 64
+                && xs::arch_list<xs::sse2, xs::avx, xs::sse3, xs::avx512f, xs::sse4_1>::alignment() == 64 && xs::arch_list<xs::avx, xs::avx, xs::sse2, xs::avx512f>::alignment() == 64,
+            "arch_list::alignment() of unsorted lists containing avx512f is the maximum member alignment");
+#endif
     verdict(ordered(xs::supported_architectures {}), "supported_architectures is ordered best-first (no architecture is listed after one it extends)");
     verdict(ordered(xs::all_x86_architectures {}), "all_x86_architectures is ordered best-first");
     verdict(std::is_same<xs::best_arch, xs::supported_architectures::best>::value, "best_arch is the head of supported_architectures");
